@@ -33,6 +33,12 @@ rc, out = sh(PY + " -m pytest -q -p no:cacheprovider tests/test_gen tests/test_m
              "--deselect tests/test_utils.py::TestBenchmarker::test_basic 2>&1 | tail -2", wt)
 meta["confirmed"]["existing_tests_with_change"] = out.strip().splitlines()[-1]
 tests_ok = " failed" not in out and "error" not in out.lower()
+if not tests_ok:
+    # tests/test_utils.py::TestFromRepeats::test_basic draws random numbers and fails now and then: run once more
+    rc, out = sh(PY + " -m pytest -q -p no:cacheprovider tests/test_gen tests/test_manage.py tests/test_utils.py "
+                 "--deselect tests/test_utils.py::TestBenchmarker::test_basic 2>&1 | tail -2", wt)
+    meta["confirmed"]["existing_tests_with_change_second_run"] = out.strip().splitlines()[-1]
+    tests_ok = " failed" not in out and "error" not in out.lower()
 rc1, out1 = sh("PYTHONPATH=. XYZPY_ROOT=%s %s -W ignore _seed/%s/demo.py" % (wt, PY, letter), wt)
 sh("git checkout -- xyzpy", wt)
 rc0, out0 = sh("PYTHONPATH=. XYZPY_ROOT=%s %s -W ignore _seed/%s/demo.py" % (wt, PY, letter), wt)
